@@ -1004,6 +1004,15 @@ class Interp:
             a, b = k1[1][0], k2[1][0]
             if a[0] in ('const', 'num') and b[0] in ('const', 'num'):
                 return a != b
+        if k1[0] in ('bin', 'elem', 'sym', 'num', 'idx') and \
+                k2[0] in ('bin', 'elem', 'sym', 'num', 'idx') and k1 != k2:
+            # symbolic indices that differ by a non-zero constant (n vs n - 1)
+            from .poly import Canon
+            try:
+                r = Canon().rat(('bin', '-', k1, k2))
+            except Exception:
+                return False
+            return r.is_const() and r.const() != 0
         return False
 
     def getitem_term(self, base, key):
